@@ -217,14 +217,15 @@ pub fn run_sweep(ctx: &Ctx, rep: &mut Report) {
     // reference-mode ska lo under many hash seeds: (a) a triallelic SNP in unique sequence, (b) a reference with a
     // three-copy repeat and junction SNPs. All outputs must be identical whatever the hash seed or thread count.
     if !rep.capped {
-        for fam in ["triallelic", "three-copy repeat", "linked SNP pairs", "tied indels"] {
+        for (fam0, k) in [("triallelic", 21usize), ("three-copy repeat", 21), ("linked SNP pairs", 21), ("tied indels", 21), ("indel beside a SNP", 21), ("tied indels", 11), ("indel beside a SNP", 11), ("tied indels", 33), ("indel beside a SNP", 33), ("triallelic", 33), ("linked SNP pairs", 15), ("SNP cluster", 21), ("SNP cluster", 13)] {
+            let fam_owned = if k == 21 { fam0.to_string() } else { format!("{fam0} k={k}") };
+            let fam = fam_owned.as_str();
             idx += 1;
             if !ctx.mine(idx) {
                 continue;
             }
-            let k = 21usize;
             let n = 6usize;
-            let (reference, samples): (Vec<u8>, Vec<Vec<Vec<u8>>>) = if fam == "linked SNP pairs" {
+            let (reference, samples): (Vec<u8>, Vec<Vec<Vec<u8>>>) = if fam0 == "linked SNP pairs" {
                 // pairs of SNPs carried by the same samples (one bubble), at distances 1, 2, k-2, k-1, k, k+1, 2k-2, each
                 // pair at its own locus 6k apart
                 let dists = [1usize, 2, k - 2, k - 1, k, k + 1, 2 * k - 2];
@@ -243,7 +244,7 @@ pub fn run_sweep(ctx: &Ctx, rep: &mut Report) {
                     })
                     .collect();
                 (g, smp)
-            } else if fam == "tied indels" {
+            } else if fam0 == "tied indels" {
                 // insertions/deletions whose two alleles have exactly as many carriers each (3 v 3, and 2 v 2 with two
                 // samples lacking the locus is not possible here, so 3 v 3): which allele is REF must not depend on
                 // the order paths happen to be found in
@@ -264,7 +265,57 @@ pub fn run_sweep(ctx: &Ctx, rep: &mut Report) {
                     })
                     .collect();
                 (g, smp)
-            } else if fam == "triallelic" {
+            } else if fam0 == "indel beside a SNP" {
+                // an indel and a substitution d bases apart carried by different halves of the samples: four haplotypes
+                // in one tangle of the graph; plus a three-allele indel locus (absent / short / long)
+                let ds = [1usize, 3, k / 2, k - 2, k, k + 3];
+                let g = lo::ancestor(6 * k * (ds.len() + 2), k, ctx.seed + 95);
+                let smp = (0..n)
+                    .map(|i| {
+                        let mut s: Vec<u8> = Vec::new();
+                        let mut at = 0usize;
+                        for (j, d) in ds.iter().enumerate() {
+                            let p = 3 * k + j * 6 * k;
+                            s.extend_from_slice(&g[at..p]);
+                            at = if (i + j) % 2 == 0 { p + 2 } else { p };
+                            let q = p + 2 + d;
+                            s.extend_from_slice(&g[at..q]);
+                            s.push(if (i / 2 + j) % 2 == 0 { comp(g[q]) } else { g[q] });
+                            at = q + 1;
+                        }
+                        let p = 3 * k + ds.len() * 6 * k;
+                        s.extend_from_slice(&g[at..p]);
+                        at = p + [0usize, 2, 5][i % 3];
+                        s.extend_from_slice(&g[at..]);
+                        vec![if i % 3 == 1 { rc_str(&s) } else { s }]
+                    })
+                    .collect();
+                (g, smp)
+            } else if fam0 == "SNP cluster" {
+                // three substitutions within one k-mer length of each other, each with its own carrier set: up to six
+                // haplotypes in one tangle; three such loci with spacings (2,3), (k/2,k/3), (k-2,1)
+                let sp = [(2usize, 3usize), (k / 2, k / 3), (k - 2, 1)];
+                let g = lo::ancestor(6 * k * (sp.len() + 1), k, ctx.seed + 94);
+                let smp = (0..n)
+                    .map(|i| {
+                        let mut s = g.clone();
+                        for (j, (a, b)) in sp.iter().enumerate() {
+                            let p = 3 * k + j * 6 * k;
+                            if (i + j) % 2 == 0 {
+                                s[p] = comp(s[p]);
+                            }
+                            if (i / 2 + j) % 2 == 0 {
+                                s[p + a] = comp(s[p + a]);
+                            }
+                            if i % 3 == j % 3 {
+                                s[p + a + b] = lo::alt_base(g[p + a + b], 2);
+                            }
+                        }
+                        vec![if i % 3 == 1 { rc_str(&s) } else { s }]
+                    })
+                    .collect();
+                (g, smp)
+            } else if fam0 == "triallelic" {
                 let g = lo::ancestor(12 * k, k, ctx.seed + 98);
                 let sites = [4 * k, 8 * k];
                 let smp = (0..n)
@@ -315,6 +366,10 @@ pub fn run_sweep(ctx: &Ctx, rep: &mut Report) {
                     match lo::run_lo(&dir, k, &samples, Some(&reference), &[], t, Some(ctx.seed + hs)) {
                         Ok(o) if o.code == 0 => {
                             let canon = format!("{:?}|{:?}|{:?}|{}", o.snp_seqs, o.snps_vcf, o.pseudo.as_ref().map(|p| &p.1), o.indels_vcf);
+                            if let Ok(d) = std::env::var("VERIF_DUMP") {
+                                // debugging aid: the whole canonical output of every configuration
+                                let _ = std::fs::write(format!("{d}/{}_{hs}_{t}.txt", fam.replace(' ', "_")), canon.replace("\\n", "\n"));
+                            }
                             outs.entry(canon).or_default().push((t, ctx.seed + hs));
                             let mut m = std::collections::BTreeMap::new();
                             for l in o.snps_vcf.unwrap_or_default().lines() {
